@@ -60,7 +60,7 @@ def namespace_for(frame):
     return {"lv": list(reversed(present)), "np": np}
 
 
-def frame_strategy(min_rows=8, max_rows=36, num_styles=("general", "general", "offset"), **kw):
+def frame_strategy(min_rows=8, max_rows=36, num_styles=("general", "general", "offset", "intdtype", "symmetric"), **kw):
     return frames.random_frame(cat_vars=("f", "g", "h", "u"), num_vars=("x", "z"), int_vars=("k",), pos_vars=("p",), intcat_vars=("v",),
                                min_rows=min_rows, max_rows=max_rows, max_levels=4, num_styles=num_styles, **kw)
 
